@@ -188,6 +188,11 @@ func (t *Tape) Rewind() { t.n = t.mark }
 //go:norace
 func (t *Tape) Pos() int { return t.n }
 
+// Room returns how many more draws the tape can take.
+//
+//go:norace
+func (t *Tape) Room() int { return t.cap - t.n }
+
 // Overflow reports whether the run wanted more than TapeCap draws.
 func (t *Tape) Overflow() bool { return t.over }
 
